@@ -140,7 +140,7 @@ func (k SettlementKeeper) tryPayout(ctx sdk.Context, tenantId uint64, utxr *type
 			}
 		case payoutMethod == types.PayoutMethod_MintContract:
 			contractAddr := tenant.GetContractAddress()
-			_, err = k.evmk.CallEVM(ctx, contracts.SBTContract.ABI, common.BytesToAddress(treasuryAddr), common.HexToAddress(contractAddr),
+			_, err = k.callContract(ctx, contracts.SBTContract.ABI, common.BytesToAddress(treasuryAddr), common.HexToAddress(contractAddr),
 				true, "mint", common.BytesToAddress(recipientCosmosAddr), amount.Amount.BigInt())
 		default:
 			return true, fmt.Errorf("invalid payout method: %s", payoutMethod)
